@@ -90,7 +90,7 @@ TIERS = {
     "thorough": {"runs": 5000, "chunk": 40, "max_points": 100000, "chunk_timeout": 3600},
 }
 REACH_PROBES = ["cancel_landed", "cancel_in_done_callback", "cancel_during_executor", "cancel_in_wait_until", "cancel_in_blocking_service_call",
-                "cancel_in_sleep", "cancel_before_first_step", "cancel_after_end", "raising_callback_then_other",
+                "cancel_in_sleep", "cancel_after_end", "raising_callback_then_other",
                 "waiter_saw_cancelled", "callback_removed", "cancel_by_unique_takeover", "takeover_before_claim",
                 "two_bound_methods_on_one_task", "bound_method_replaced_or_removed", "bound_method_fresh_lookup",
                 "sleep_zero_or_negative", "spin_loop", "cancel_in_sleep0", "siblings_spawned_together",
@@ -98,6 +98,8 @@ REACH_PROBES = ["cancel_landed", "cancel_in_done_callback", "cancel_during_execu
                 "wait_on_task_set", "wait_some_already_finished", "wait_all_already_finished", "wait_with_timeout",
                 "wait_first_completed", "shutdown_run", "shutdown_runs_together", "executor_call",
                 "child_cancelled_before_first_step", "child_cancelled_after_start"]
+# probes that only fire together with the violation they describe (C14-F3, repaired): not "reach"
+SYMPTOM_PROBES = ["raising_callback_then_other"]
 SHRINK_LISTS = [["spec", "progs"], ["spec", "progs", "*", "steps"]]
 GRID = 0.25
 CB_KINDS = ["plain", "sleep", "raise"]
